@@ -3,7 +3,7 @@ Stream for C14 (robustness): arbitrary command lines fed to the real debugger Sh
 """
 import random
 
-from . import dbg, dbgsem, proggen
+from . import dbg, dbgsem, proggen, proto
 
 COMMANDS = ["asm", "assign", "break", "continue", "clear", "dis", "doc", "execute", "goto", "help", "info", "list", "ll", "next",
             "off", "on", "print", "restart", "step", "undo", "a", "b", "c", "cl", "e", "g", "h", "i", "l", "n", "p", "s", "u", "q?", "x"]
@@ -68,6 +68,7 @@ def check(seed, n):
             line = gen_line(rng, labels)
             done.append(line)
             out, errs, exc, cont = dbg.feed(shell, line, limit=5)
+            proto.sample("shellfuzz", {"state": state, "line": line, "program": text[:200]})
             evals += 1
             if exc and exc.startswith("Hang") and (state in ("pc-outside", "weird-stack") or any(
                     w in " ".join(done) for w in ("=", "assign", "exec", "goto", " g ", "on ", "off ", "e "))):
